@@ -1,7 +1,7 @@
 (* C07 - JOIN admits exactly those whom key, bans, invitation, limit and quota allow.
    Statements only; proofs in IRCP.JoinP, IRCP.JoinP2, IRCP.BanP. *)
-From IRC Require Import Str Wild Glob Parse Reply State Handlers.
-From IRCP Require Import BanP JoinP JoinP2 JoinListP.
+From IRC Require Import Str Wild Glob Parse Reply State Handlers Step.
+From IRCP Require Import BanP JoinP JoinP2 JoinListP InvDefs AdmitGlobal.
 From stdpp Require Import gmap.
 
 Section C07.
@@ -69,7 +69,23 @@ Proof. exact (process_join_plan cfg i). Qed.
 
 End C07.
 
+(* EXACTLY THOSE WHOM THE RULE ALLOWS, for every history.  Over every event of every connection: a user that holds a
+   membership after the step which the same connection's user did not hold before it is the sender of this event, the event
+   is its JOIN line, the channel stands at some position k of its list, the quota had room (channels held before the line
+   < max_joins), and - when the channel existed - the channel as it was BEFORE the line admitted this user with the key at
+   position k: key, bans and exceptions, invitation, limit (join_allowed, the rule of C07_check_iff).  No other command and
+   nobody else's command makes anybody a member; an operator's neither. *)
+Theorem C07_member_only_if_admitted : forall cfg verify w i e w' o cl n u' n0 u ch, Inv w -> step cfg verify w i e = Ok (w', o, cl) ->
+  users (sh w') !! n = Some u' -> users (sh w) !! n0 = Some u -> u_conn u = u_conn u' ->
+  ch ∈ u_chans u' -> ch ∉ u_chans u ->
+  exists c l msg chs0 keys k key, conns w !! i = Some c /\ c_auth c = true /\ u_conn u' = i /\ n0 = n /\ c_nick c = Some n /\
+    e = EvLine l /\ tokenize l = inl msg /\ command_of_message msg = inl (JOIN chs0 keys) /\
+    nth_error chs0 k = Some ch /\ key_at keys k = Some key /\ quota_ok cfg u /\
+    forall co, chans (sh w) !! ch = Some co -> join_allowed co u ch (c_source c) key.
+Proof. exact gained_only_if_admitted. Qed.
+
 Print Assumptions C07_check_iff.
+Print Assumptions C07_member_only_if_admitted.
 Print Assumptions C07_comma_list.
 Print Assumptions C07_single_channel.
 Print Assumptions C07_accepted_effect.
